@@ -7,7 +7,10 @@ import ast, glob, os, re, sys
 HERE = os.path.dirname(os.path.dirname(os.path.abspath(__file__)))
 logdir = sys.argv[1] if len(sys.argv) > 1 else "/tmp"
 seeded, benign = {}, {}
-for lp in sorted(glob.glob(os.path.join(logdir, "recheck_*.log"))) + sorted(glob.glob(os.path.join(logdir, "recheck8_*.log"))) + sorted(glob.glob(os.path.join(logdir, "recheck9_*.log"))) + sorted(glob.glob(os.path.join(logdir, "recheck91_*.log"))) + sorted(glob.glob(os.path.join(logdir, "recheck92_*.log"))):
+# the committed records are the base; logs found in logdir override the entries they cover
+_bs = os.path.join(HERE, "seeded", "RECHECK_seeded.txt")
+_bb = os.path.join(HERE, "seeded", "benign", "RECHECK_benign.txt")
+for lp in [x for x in (_bs, _bb) if os.path.exists(x)] +  sorted(glob.glob(os.path.join(logdir, "recheck_*.log"))) + sorted(glob.glob(os.path.join(logdir, "recheck8_*.log"))) + sorted(glob.glob(os.path.join(logdir, "recheck9_*.log"))) + sorted(glob.glob(os.path.join(logdir, "recheck91_*.log"))) + sorted(glob.glob(os.path.join(logdir, "recheck92_*.log"))) + sorted(glob.glob(os.path.join(logdir, "recheck93_*.log"))):
     cur = None
     for line in open(lp):
         line = line.rstrip("\n")
@@ -21,7 +24,7 @@ for lp in sorted(glob.glob(os.path.join(logdir, "recheck_*.log"))) + sorted(glob
             cur = m.group(1)
             benign[cur] = [m.group(2)]
             continue
-        if cur and line.strip():
+        if cur and line.strip() and not re.match(r"^(C\d\d-agent|[R-Z]\d+-r\d+ )", line):
             benign[cur].append(line.strip())
 
 
